@@ -860,6 +860,7 @@ pub fn run_shard(ctx: &mut Ctx) {
         check_file_names(ctx, &mut r);
     }
     if ctx.prop == "C16" {
+        ctx.begin_phase(0.1);
         let n = if ctx.tier == Tier::Quick { 6 } else { 400 };
         for _ in 0..n {
             if !ctx.time_left() {
@@ -870,9 +871,11 @@ pub fn run_shard(ctx: &mut Ctx) {
             }
             ctx.out.count("concurrent_rounds(4_readers+drainer)", 1);
         }
+        ctx.end_phase();
     }
     if ctx.prop == "C16" {
         // walks in which update_state is an ordinary step (no reference model, panics only)
+        ctx.begin_phase(0.3);
         let n = if ctx.tier == Tier::Quick { 150 } else { 20_000 };
         for _ in 0..n {
             if !ctx.time_left() {
@@ -892,17 +895,20 @@ pub fn run_shard(ctx: &mut Ctx) {
                 ctx.out.viol(v);
             }
         }
+        ctx.end_phase();
     }
     if ctx.prop == "C06" || ctx.prop == "C16" {
         // a partially ordered vote type (the tuple votes of the main harness types are totally ordered)
+        ctx.begin_phase(0.2);
         let n = if ctx.tier == Tier::Quick { 60 } else { 3000 };
         crate::props::pvote::run(ctx, n, &mut r);
+        ctx.end_phase();
     }
     if ctx.prop == "C11" || ctx.prop == "C02" {
         let n = if ctx.tier == Tier::Quick { 3 } else { 40 };
-        let t0 = ctx.t0;
-        let b = ctx.budget_s;
-        crate::props::maxbatch::run(&mut ctx.out, n, &mut r, &|| util::now_s() - t0 < b);
+        let dl = ctx.begin_phase(0.3);
+        crate::props::maxbatch::run(&mut ctx.out, n, &mut r, &|| util::now_s() < dl);
+        ctx.end_phase();
     }
     loop {
         if ctx.tier == Tier::Quick && h >= n_quick {
